@@ -45,6 +45,9 @@ def sig(path):
     return "/".join(out)
 
 
+NOWHERE = "10.250.250.250"  # a valid address nobody owns and (in the generated families) no route table covers
+
+
 def arg_vectors(path, node, game, rnd):
     """full-arity argument vectors (valid, boundary, invalid values) for the leaf at `path`"""
     leaf = path[-1]
@@ -88,13 +91,13 @@ def arg_vectors(path, node, game, rnd):
     if leaf == "disable_user":
         return [["admin"], ["ghost"]]
     if leaf in ("remote_login", "node_session_remote_login"):
-        return [["admin", "admin", ip], ["admin", "wrong", ip], ["ghost", "x", ip]]
+        return [["admin", "admin", ip], ["admin", "wrong", ip], ["ghost", "x", ip], ["admin", "admin", NOWHERE]]
     if leaf == "remote_logout":
         return [["no-such-session-id"]]
     if leaf == "remote_logoff":
-        return [[ip]]
+        return [[ip], [NOWHERE]]
     if leaf == "send_remote_command":
-        return [[ip, {"command": ["file_system", "create", "folder", "viaremote"]}]]
+        return [[ip, {"command": ["file_system", "create", "folder", "viaremote"]}], [NOWHERE, {"command": ["file_system", "create", "folder", "viaremote"]}]]
     if leaf == "send_local_command":
         return [["admin", "admin", {"command": ["file_system", "create", "folder", "vialocal"]}], ["admin", "bad", {"command": ["os", "scan"]}]]
     if leaf == "send":
@@ -251,6 +254,18 @@ def case_tree(spec, cov, out):
     sim = game.simulation
     paths = sim._request_manager.get_request_types_recursively()
     rnd.shuffle(paths)
+    # distinct (node type, path shape) first: the budget is spent on different handlers before repeats of the same one
+    seen_keys = {}
+    for p in paths:
+        nt = type(sim.network.get_node_by_hostname(p[2])).__name__ if len(p) > 2 and p[0] == "network" and p[1] == "node" else "-"
+        k = (nt, sig(p))
+        seen_keys[k] = seen_keys.get(k, 0) + 1
+        p_rank = seen_keys[k]
+        p.append(p_rank)
+    paths.sort(key=lambda p: p[-1])
+    for p in paths:
+        p.pop()
+    cov.mx("distinct_path_shapes_by_node_type", len(seen_keys))
     budget = spec["budget"]
     cov.hit("state_classes", sclass)
     for path in paths[:budget]:
@@ -431,7 +446,7 @@ class Check:
             for sc in SCLASSES:
                 sd = seed * 1000 + s
                 specs.append({"name": f"tree-{sd}-{sc}", "kind": "tree", "seed": sd, "family": fams[s % 3], "sclass": sc,
-                              "budget": 70 if q else 400, "vecs": 3, "muts": 4 if q else 8})
+                              "budget": 90 if q else 400, "vecs": 4, "muts": 4 if q else 8})
         for s in range(6 if q else 30):
             sd = seed * 1000 + 500 + s
             specs.append({"name": f"actions-{sd}", "kind": "actions", "seed": sd, "family": fams[s % 3], "sclasses": SCLASSES,
